@@ -20,7 +20,7 @@ cols = st.one_of(st.sampled_from(['A', 'Z', 'AA', 'AZ', 'ZZ', 'AAA', 'XFD', 'XFE
 rows = st.one_of(st.sampled_from([1, 9, 10, 1048576, 1048577]), st.integers(1, 3000))
 
 
-POOL = ['A1', 'B2', 'C3', 'D7', 'b2', '$B$2', 'c$3', '$D7', 'C7', 'A3']     # a few labels that come back within one formula (the same cell again, a corner of an earlier range)
+POOL = ['A1', 'B2', 'C3', 'D7', 'b2', '$B$2', 'c$3', '$D7', 'C7', 'A3', 'LOG10', 'ATAN2', 'log10', '$ATAN$2', 'Z1', 'AA3', 'ZZ9', 'AAA9']     # a few labels that come back within one formula (the same cell again, a corner of an earlier range)
 
 
 @st.composite
